@@ -440,7 +440,7 @@ pub fn generate_c02(tier: &str, rng: &mut Rng) -> Vec<String> {
     let thorough = tier == "thorough";
     let mut bufs: Vec<Vec<u8>> = vec![];
     for n in 0..=13 { bufs.push(vec![0u8; n]); bufs.push(rng.bytes(n)); }
-    let rounds = if thorough { 40_000 } else { 900 };
+    let rounds = if thorough { 200_000 } else { 900 };
     for _ in 0..rounds {
         let mut b = valid_encoding(rng, 4);
         match rng.below(12) {
@@ -481,7 +481,7 @@ pub fn generate_c02(tier: &str, rng: &mut Rng) -> Vec<String> {
 pub fn generate_hist(prop: &str, tier: &str, rng: &mut Rng) -> Vec<String> {
     let thorough = tier == "thorough";
     let mut v = vec![];
-    let n_hist = if thorough { 6_000 } else { 300 };
+    let n_hist = if thorough { 30_000 } else { 300 };
     let max_ops = if thorough { 60 } else { 30 };
     for case in 0..n_hist {
         // shadow of (tag, len) to steer the generator towards exact-fit and failing operations
